@@ -50,6 +50,7 @@ type Prog struct {
 	notTable     map[*ssa.Global]bool
 	roles        *Roles
 	normalised   int // functions whose higher-order helper sites were inlined in place (normalise.go)
+	consumed     map[*ssa.Function]bool // helpers without remaining call sites after normalisation
 }
 
 // brokenf reports that the check itself cannot run (exit 2): never a silent pass.
@@ -110,6 +111,7 @@ func Load(dir string, c Config) *Prog {
 		p.SPkgs[path] = sp
 	}
 	p.collectFuncs()
+	p.setNonNilHook()
 	if n := normaliseHigherOrder(p); n > 0 {
 		p.normalised = n
 		p.collectFuncs()
@@ -127,7 +129,7 @@ func (p *Prog) collectFuncs() {
 	seen := map[*ssa.Function]bool{}
 	var add func(f *ssa.Function)
 	add = func(f *ssa.Function) {
-		if f == nil || seen[f] || f.Blocks == nil {
+		if f == nil || seen[f] || f.Blocks == nil || p.consumed[f] {
 			return
 		}
 		seen[f] = true
